@@ -51,6 +51,7 @@ Canon(t) ==
                     ELSE IF t.a[n].k = "tuple" THEN [ j \in 1..Len(t.a[n].a) |-> Canon(t.a[n].a[j]) ]
                     ELSE << C(n) >>)) }
        [] k = "Gen" -> { Atom("Named", "GenCls", << C(1) >>) }
+       [] k = "Gen2" -> { Atom("Named", "PairCls", << C(1), C(2) >>) }      \* a generic class with two type parameters: the arguments keep their order
        [] k = "Alias" -> C(1)                                  \* a module-level alias `Name = <annotation>` used as the annotation: means what it abbreviates
        [] k = "VarTuple" -> { Atom("Tuple", "", << C(1) >>) }   \* tuple[X, ...]: a tuple type (the stub language has no variadic form)
 
@@ -86,7 +87,7 @@ Leaves == { T0(k) : k \in LeafK }
 LitTerms == { TL(<< <<"str", "a">> >>), TL(<< <<"str", "a">>, <<"str", "b">> >>), TL(<< <<"int", "1">>, <<"str", "a">> >>),
               TL(<< <<"bool", "true">> >>), TL(<< <<"str", "a">>, <<"none", "null">> >>), TL(<< <<"int", "-1">>, <<"int", "2">> >>) }
 Unary == {"list", "Sequence", "Collection", "set", "Optional", "OrNone", "Gen"}
-Binary == {"dict", "Mapping", "tuple", "Union", "Or"}
+Binary == {"dict", "Mapping", "tuple", "Union", "Or", "Gen2"}
 SmallLeaves == { T0("int"), T0("str"), T0("None"), T0("Loc"), TL(<< <<"str", "a">> >>) }
 TinyLeaves == { T0("int"), T0("None"), T0("Loc") }
 
@@ -134,6 +135,7 @@ Lift(k, ms) ==
     [] k \in {"Optional", "OrNone"} -> ms[1] \cup { Null }
     [] k \in {"Union", "Or"} -> UNION { ms[j] : j \in 1..Len(ms) }
     [] k = "Gen" -> { Atom("Named", "GenCls", << ms[1] >>) }
+    [] k = "Gen2" -> { Atom("Named", "PairCls", << ms[1], ms[2] >>) }
 Inv_C05_Compositional ==
   term.k \in (Unary \cup Binary) => Canon(term) = Lift(term.k, [ j \in 1..Len(term.a) |-> Canon(term.a[j]) ])
 Inv_C05_NonEmpty == Canon(term) # {}
